@@ -1276,11 +1276,11 @@ def main(argv):
         cases += [("corpus", normalize_case(jl(c))) for c in json.load(open(CORPUS))]
     cases.append(("finding", finding_case()))
     cases += [("small", c) for c in small_cases(ck.rng)]
-    nrand = 1500 if thorough else 360
+    nrand = 6000 if thorough else 600
     profiles = ["any", "cutoff", "small", "txnheavy", "refheavy", "any", "small"]
     for i in range(nrand):
         cases.append(("random:" + profiles[i % len(profiles)], gen_case(ck.rng, profiles[i % len(profiles)], i)))
-    nneg = 600 if thorough else 210
+    nneg = 2000 if thorough else 300
     for i in range(nneg):
         cases.append(("negative", gen_negative(ck.rng, i)))
     if thorough:
@@ -1435,6 +1435,13 @@ def finish(ck, thorough=False):
 
 def replay(ck, path):
     d = json.load(open(path))
+    if "case" not in d:
+        # a broken proof obligation / translator / model build: nothing to re-run beyond the proofs, which this invocation just re-checked
+        if not ck.proof_ok:
+            ck.violation("proof obligation still broken: %s" % d.get("broken"), {"kind": "proof", "broken": d.get("broken"), "log": ck.proof_log[-1500:]}, no_failing_input=True)
+        ck.count(("replay-proof", path))
+        ck.count(("replay-proof2", repr(d.get("broken"))))
+        return finish(ck)
     case = normalize_case(jl(d["case"]))
     versions = d.get("versions") or [8]
     r = run_case(case, versions)
